@@ -209,3 +209,44 @@ def gen(rng, n, tier, focus=None, blocks=(4, 14)):
         g = ExecGen(_r.Random(rng.getrandbits(64)), focus=focus or rng.choice(["mixed", "mixed", "group", "single"]))
         hs.append(g.history(rng.randint(*blocks)))
     return hs
+
+
+def gen_fees(rng, n, tier):
+    """C14 focus: transfers of every amount class (incl. self, negative, non-numeric, to admins and contracts),
+    fee levels around the balance, mixed with failing txs; balances of all accounts after every block."""
+    import random as _r
+    hs = []
+    for _ in range(n):
+        r = _r.Random(rng.getrandbits(64))
+        price = r.choice([1, 1, 3, 7, 1000, 47619047, 47619048])   # 21000*47619048 > 10^12 (user funds)
+        ops = [f"world audit=0 price={price}", "q bals"]
+        tags = set()
+        names = USERS + ["ca1", "adm1", "adm0"]
+        for _ in range(r.randint(3, 10)):
+            txs = []
+            for _ in range(r.choice([1, 1, 1, 2, 3, 5])):
+                k = r.random()
+                a = r.choice(USERS)
+                if k < 0.12:
+                    b = a
+                    tags.add("xfer:self")
+                else:
+                    b = r.choice(names + ["interchain", "txmgr"])
+                amt = r.choice(["0", "1", "7", "1000", "999999999999", "1000000000000", "1000000000001",
+                                str(10 ** 12 - 21000 * price), str(10 ** 12 - 21000 * price + 1),
+                                "abc", "-5", "-1000000000000000", "100000000000000000000000000", "3.5", ""])
+                if amt == "":
+                    amt = "~"
+                if amt.startswith("-"):
+                    tags.add("xfer:negative")
+                if k > 0.85:
+                    txs.append(f"ibtp {a} c1:s1 c2:s1 {r.choice([1, 2, 9])} req 0 - {r.choice(['ok', 'bad'])}")
+                    tags.add("fee:ibtp")
+                elif k > 0.78:
+                    txs.append(f"bvm {a} txmgr Begin s:1356:c1:s1-1356:c2:s1-1 u:3 b:0")
+                else:
+                    txs.append(f"xfer {a} {b} {amt}")
+            ops.append("block " + " | ".join(txs))
+            ops.append("q bals")
+        hs.append(History(ops, tags=tags | {"fees"}))
+    return hs
